@@ -53,6 +53,8 @@ func baseWorld() {
 	put(actor(P, "Peer"))
 	put(actor(Z, "Zed"))
 	put(actor(evil+"/users/M", "Mallory"))
+	put(actor(h1+":8443/users/M", "Mallory on another port"))
+	put(actor(h1+":9443/users/M", "Mallory on a third port"))
 	put(note(Q, "the post"))
 	put(note(Q2, "another post"))
 	put(note(h1+"/notes/N1", "announced note"))
@@ -242,6 +244,11 @@ func authorCases() []authorCase {
 	mk("foreign-host", h1, true, func() any { return Z }, false)
 	mk("foreign-embedded-claiming-own-host", evil, true, func() any { return actor(O, "Owner forged") }, false)
 	mk("evil-own-author", evil, true, func() any { return evil + "/users/M" }, true)
+	// the same host name under another port is another server
+	mk("foreign-embedded-on-another-port-claiming-own-host", h1+":8443", true, func() any { return actor(O, "Owner forged") }, false)
+	mk("author-on-another-port", h1, true, func() any { return h1 + ":8443/users/M" }, false)
+	mk("author-on-another-port-embedded", h1+":8443", true, func() any { return actor(h1+":9443/users/M", "Mallory on a third port") }, false)
+	mk("own-author-on-the-same-port", h1+":8443", true, func() any { return h1 + ":8443/users/M" }, true)
 	mk("both-without-id", h1, false, anon, true)
 	mk("author-without-id", h1, true, anon, false)
 	mk("post-without-id", h1, false, func() any { return O }, false)
